@@ -67,6 +67,14 @@ JudgeField(o) ==
         IF ~o.present \/ o.gotname \notin ErrnoNames(o.errno) THEN << PFlag("C12", "negative exit code does not become the errno's name") >> ELSE << >>
     ELSE IF o.how = "arch" THEN
         IF ~o.present \/ o.gotname # ArchName(o.arch) THEN << PFlag("C12", "arch value does not become the architecture's name") >> ELSE << >>
+    ELSE IF o.how = "xtags" THEN
+        \* beyond the listed properties: the rule keys the kernel logs (joined by 0x01, hex when there are
+        \* several) come back as Tags()
+        IF o.enc # EncodeUntrusted(o.joined) THEN << PFlag("PARSE-X", "harness error: key not written the way the kernel writes it") >>
+        ELSE IF o.tags # o.keys THEN << PFlag("PARSE-X", "Tags() are not the keys of the rule that produced the record") >>
+        ELSE << >>
+    ELSE IF o.how = "xderived" THEN
+        IF ~o.present \/ o.got # o.want THEN << PFlag("PARSE-X", "record-format rule broken: " \o o.rule) >> ELSE << >>
     ELSE IF o.how = "saddr" THEN
         (IF o.family # o.want_family THEN << PFlag("C12", "socket address family decoded wrongly") >> ELSE << >>)
         \o (IF o.want_family \in {"ipv4", "ipv6"} /\ (o.addr_bytes # o.want_addr \/ o.port # o.want_port)
